@@ -5,6 +5,7 @@ from . import common
 PID = "C02"
 CLS = "DiHypergraph"
 ANCHORS = ("xgi/core/dihypergraph.py", "xgi/core/views.py", "xgi/stats/dinodestats.py", "xgi/stats/diedgestats.py")
+TECHNIQUE = "runtime monitoring: structural invariant evaluated at the quiescent point after every op of seeded edit histories (preservation form)"
 RULE = (
     "case = one seeded edit history (<= 25 ops from the DiHypergraph mutator alphabet incl. cleanup and in-place relabelling) "
     "from a constructible start state; one evaluation = the directed invariant checked after one op (returned or raised). "
